@@ -170,7 +170,8 @@ def ev_group(group: dict | None, leaf) -> bool:
     conds = group["conds"]
     if group.get("expr"):
         f, _ = rc.parse_condition(group["expr"], list(conds), atom)
-        return evaluate(f, {k: leaf(v) for k, v in conds.items()})
+        r = evaluate(f, {k: leaf(v) for k, v in conds.items()})
+        return (not r) if group.get("not") else r   # the negation option applies to the result of an expression as well
     vals = [leaf(c) for c in (conds.values() if isinstance(conds, dict) else conds)]
     r = any(vals) if group.get("op") == "or" else all(vals)
     return (not r) if group.get("not") else r
@@ -262,6 +263,8 @@ def _item_yaml(test: dict) -> dict:
             d[f"{prefix}_conditions"] = copy.deepcopy(g["conds"])
         if g.get("expr"):
             d[f"{prefix}_cond_expr"] = g["expr"]
+            if g.get("not"):
+                d[f"{prefix}_cond_not"] = True
         else:
             if g.get("op"):
                 d[f"{prefix}_cond_op"] = g["op"]
@@ -1028,7 +1031,7 @@ def group(draw, catalogue):
             expr = f"({expr})"
     if draw(st.integers(0, 3)) == 0:
         expr = "not " + (expr if expr.startswith("(") else f"({expr})")
-    return {"conds": cmap, "expr": expr}
+    return {"conds": cmap, "expr": expr, "not": draw(st.integers(0, 2)) == 0}
 
 
 @st.composite
